@@ -5,7 +5,7 @@ package main
 //
 // Enumerated (full product): for one and for two (trip, vehicle) pairs, the association
 // expressed by {trip update carrying a vehicle descriptor, vehicle position carrying a trip
-// descriptor, both} x vehicle descriptor {id, label only, none, present but empty} x trip descriptor {trip id,
+// descriptor, both} x vehicle descriptor {id, label only, none, present but empty, present with empty strings} x trip descriptor {trip id,
 // route+direction+start} x optional unrelated trip / unrelated vehicle / alert mentioning
 // the trip, x ALL entity orders (n <= 5) x all map rotations.
 // Oracle (invariant, no expected value): both sides of every association exist, both links
@@ -21,7 +21,7 @@ import (
 )
 
 type assocPair struct {
-	expr  int // 0 TU only, 1 VP only, 2 TU+VP both express it, 3 TU+VP only the TU expresses it, 4 TU+VP only the VP expresses it
+	expr  int // 0 TU only, 1 VP only, 2 TU+VP both express it, 3 TU+VP only the TU expresses it, 4 TU+VP only the VP expresses it, 5 TU+VP and neither does
 	vdesc int // 0 id, 1 label only, 2 none, 3 present but empty (on the vehicle position only)
 	tdesc int // 0 trip id, 1 route+direction+start
 	td    *gtfsrt.TripDescriptor
@@ -40,8 +40,8 @@ type assocMsg struct {
 	extraTrip, extraVehicle, alertMention bool
 }
 
-var exprNames = []string{"TU", "VP", "TU+VP", "TU(assoc)+VP", "TU+VP(assoc)"}
-var vdescNames = []string{"id", "label", "none", "empty"}
+var exprNames = []string{"TU", "VP", "TU+VP", "TU(assoc)+VP", "TU+VP(assoc)", "TU+VP(unassociated)"}
+var vdescNames = []string{"id", "label", "none", "empty", "empty-strings"}
 var tdescNames = []string{"tripid", "route+dir+start"}
 
 func genAssoc(c *Ctx, nPairs int, withExtras bool, withConflicts bool) *assocMsg {
@@ -50,7 +50,7 @@ func genAssoc(c *Ctx, nPairs int, withExtras bool, withConflicts bool) *assocMsg
 	var key strings.Builder
 	for i := 0; i < nPairs; i++ {
 		p := fmt.Sprintf("pair%d.", i+1)
-		ap := &assocPair{expr: c.Free(p+"expressed_by", 5), vdesc: c.Free(p+"vehicle_desc", 4), tdesc: c.Free(p+"trip_desc", 2)}
+		ap := &assocPair{expr: c.Free(p+"expressed_by", 6), vdesc: c.Free(p+"vehicle_desc", 5), tdesc: c.Free(p+"trip_desc", 2)}
 		if ap.tdesc == 0 {
 			ap.td = &gtfsrt.TripDescriptor{TripId: sp(fmt.Sprintf("T%d", i+1)), RouteId: sp("R")}
 		} else {
@@ -66,6 +66,7 @@ func genAssoc(c *Ctx, nPairs int, withExtras bool, withConflicts bool) *assocMsg
 		hasVP := ap.expr != 0
 		tuNamesVehicle := ap.expr == 0 || ap.expr == 2 || ap.expr == 3
 		vpNamesTrip := ap.expr == 1 || ap.expr == 2 || ap.expr == 4
+		// expr 5: both entities present, neither names the other: no association at all
 		if hasTU {
 			ap.tuStop = fmt.Sprintf("TS%d", i+1)
 			tu := &gtfsrt.TripUpdate{Trip: cloneTD(ap.td), StopTimeUpdate: []*gtfsrt.TripUpdate_StopTimeUpdate{{StopId: sp(ap.tuStop)}}}
@@ -84,6 +85,8 @@ func genAssoc(c *Ctx, nPairs int, withExtras bool, withConflicts bool) *assocMsg
 				vp.Vehicle = cloneVD(ap.vd)
 			} else if ap.vdesc == 3 {
 				vp.Vehicle = &gtfsrt.VehicleDescriptor{} // a descriptor without any field: still a vehicle without id
+			} else if ap.vdesc == 4 {
+				vp.Vehicle = &gtfsrt.VehicleDescriptor{Id: sp(""), Label: sp("")} // fields present but empty: still no id
 			}
 			ents = append(ents, &gtfsrt.FeedEntity{Id: sp(fmt.Sprintf("vp%d", i+1)), Vehicle: vp})
 		}
@@ -103,6 +106,11 @@ func genAssoc(c *Ctx, nPairs int, withExtras bool, withConflicts bool) *assocMsg
 			am.extraVehicle = true
 			ents = append(ents, &gtfsrt.FeedEntity{Id: sp("vp9"), Vehicle: &gtfsrt.VehiclePosition{Vehicle: &gtfsrt.VehicleDescriptor{Id: sp("A9")}, StopId: sp("VS9")}})
 			key.WriteString("extraVehicle ")
+		}
+		if c.Free("extra.alert_names_two_new_trips", 2) == 1 {
+			ents = append(ents, &gtfsrt.FeedEntity{Id: sp("alert2"), Alert: &gtfsrt.Alert{InformedEntity: []*gtfsrt.EntitySelector{
+				{Trip: &gtfsrt.TripDescriptor{TripId: sp("N1")}}, {Trip: &gtfsrt.TripDescriptor{TripId: sp("N2"), RouteId: sp("R")}}, {Trip: &gtfsrt.TripDescriptor{TripId: sp("A9")}}}}})
+			key.WriteString("alertTwoNewTrips ")
 		}
 		if c.Free("extra.alert_mentions_trip", 2) == 1 {
 			am.alertMention = true
@@ -155,6 +163,26 @@ func genAssoc(c *Ctx, nPairs int, withExtras bool, withConflicts bool) *assocMsg
 	return am
 }
 
+var conflictingMessageCache []byte
+
+// conflictingMessage: trips T1 and T2 each claimed by two vehicles, vehicle V1 claimed by two trips.
+func conflictingMessage() []byte {
+	if conflictingMessageCache == nil {
+		m := newFeed(cp(&tsAlphabet[0]))
+		td := func(i int) *gtfsrt.TripDescriptor { return &gtfsrt.TripDescriptor{TripId: sp(fmt.Sprintf("T%d", i)), RouteId: sp("R")} }
+		vd := func(i int) *gtfsrt.VehicleDescriptor { return &gtfsrt.VehicleDescriptor{Id: sp(fmt.Sprintf("V%d", i)), Label: sp("common label")} }
+		m.Entity = []*gtfsrt.FeedEntity{
+			{Id: sp("c1"), TripUpdate: &gtfsrt.TripUpdate{Trip: td(1), Vehicle: vd(1)}},
+			{Id: sp("c2"), TripUpdate: &gtfsrt.TripUpdate{Trip: td(2), Vehicle: vd(1)}},
+			{Id: sp("c3"), Vehicle: &gtfsrt.VehiclePosition{Trip: td(1), Vehicle: vd(2)}},
+			{Id: sp("c4"), Vehicle: &gtfsrt.VehiclePosition{Trip: td(2), Vehicle: vd(3)}},
+			{Id: sp("c5"), Vehicle: &gtfsrt.VehiclePosition{Trip: td(1), Vehicle: vd(3)}},
+		}
+		conflictingMessageCache = marshalFeed(m)
+	}
+	return conflictingMessageCache
+}
+
 func entityOrder(m *gtfsrt.FeedMessage) string {
 	var ids []string
 	for _, e := range m.Entity {
@@ -168,6 +196,11 @@ func c04Harness(nPairs int, extras bool) Harness {
 		am := genAssoc(c, nPairs, extras, false)
 		b := marshalFeed(am.msg)
 		c.Input(hash64(string(b)), true, func() string { return am.key + "order=" + entityOrder(am.msg) + "\n" + feedText(am.msg) })
+		// the parse may be preceded, in the same process, by the parse of a CONFLICTING message
+		// about the same ids (a trip claimed by two vehicles): it must not matter
+		if c.Free("preceded_by_conflicting_parse", 2) == 1 {
+			parseRT(c, conflictingMessage(), &gtfs.ParseRealtimeOptions{})
+		}
 		c.SetMapMode(mapFree)
 		r, err, ok := parseRT(c, b, &gtfs.ParseRealtimeOptions{})
 		c.SetMapMode(mapFixed)
@@ -276,7 +309,7 @@ func init() {
 	register(&Check{
 		ID:    "C04",
 		Level: "model_checking",
-		Rule: "full product: 1 pair (+ optional unrelated trip, unrelated vehicle, alert mentioning the trip) and 2 pairs; association expressed by {TU, VP, both} x vehicle descriptor {id, label only, none, present but empty} x trip descriptor {trip id, route+direction+start}; all n! entity orders (n<=5); all map rotations at every library range; thorough adds 2 pairs with extras; " +
+		Rule: "full product: 1 pair (+ optional unrelated trip, unrelated vehicle, alert mentioning the trip, alert naming two new trips), each optionally preceded in the same process by the parse of a conflicting message about the same ids and 2 pairs; association expressed by {TU, VP, both} x vehicle descriptor {id, label only, none, present but empty} x trip descriptor {trip id, route+direction+start}; all n! entity orders (n<=5); all map rotations at every library range; thorough adds 2 pairs with extras; " +
 			"non-trivial = every distinct message; oracle = link invariants on the real result",
 		Assumptions: []string{"entries are located by identifier, id-less vehicles by the stop id of their position entity"},
 		Scenarios: func(tier string) []*Scenario {
